@@ -27,7 +27,7 @@ Lemma e_step_spec F hdr regs o :
 Proof.
   intros HG. unfold eager_guard in HG. destruct hdr as [|h hdr]; [|discriminate].
   destruct (f_default_hdr F) as [|d ds] eqn:ED; [|discriminate].
-  destruct o as [r|r f|r ix|r i|r srcs|r f vals|r|r].
+  destruct o as [r|r f|r ix|r i|r srcs|r f vals|r|r|r r' ix|r].
   8:{ simpl. rewrite nth_error_map'. unfold etable in *. destruct (nth_error regs r) as [[t c]|]; simpl; [|split; reflexivity].
       unfold e_write. simpl. rewrite ED. destruct t, c; split; reflexivity. }
   all: unfold e_step;
